@@ -25,6 +25,7 @@ static inline void stub_upool_clean(struct upool *upool) { }
 #define upool_free stub_upool_free
 #define upool_vacuum stub_upool_vacuum
 #define upool_clean stub_upool_clean
+#include "lib/upipe/ubuf_mem_common.c"
 #ifdef SOUND
 #include "lib/upipe/ubuf_sound_mem.c"
 #include "lib/upipe/ubuf_sound_common.c"
